@@ -251,7 +251,7 @@ def _oracle(src, ast, extra, parsed):
     def fails(s, a):
         vv = check_doc(s, a, common.impl_parse(s, 0, a.skip))
         return bool(vv) and vv[0][0] == key
-    small, sast = G.shrink(ast, fails, 200)
+    small, sast = G.shrink(ast, fails, 200) if L.may_shrink() else (src, ast)
     return [(k, w, {'input': small, 'skip': list(sast.skip), 'original': src[:300], 'family': extra['family'],
                     'expected': G.expected_canon(sast)[:2000]}) for k, w, _ in v]
 
@@ -302,10 +302,10 @@ def _all_jobs(ctx, model, scale=1):
         pairs = [((a, b), ci) for a in range(len(KINDS)) for b in range(len(KINDS)) for ci in range(NCONTEXTS)]
     triples = [((a, b, c), (a + b + c) % NCONTEXTS) for a in range(4) for b in range(len(KINDS)) for c in range(4)]
     enum('adjacent', _gen_adjacent, pairs + triples, per)
-    for k, n in enumerate(L.split(ctx.pick(6000, 120000) * scale, per)):
+    for k, n in enumerate(L.split(ctx.pick(14000, 250000) * scale, per)):
         jobs.append({'seed': '%s/%d/body/%d' % (ID, ctx.seed, k), 'n': n, 'gen': _gen_random_body, 'oracle': _oracle,
                      'nontrivial': _nontrivial, 'finds': _finds, 'model': model, 'tols': (0,)})
-    for k, n in enumerate(L.split(ctx.pick(4000, 60000) * scale, ctx.pick(125, 400))):
+    for k, n in enumerate(L.split(ctx.pick(7000, 80000) * scale, ctx.pick(125, 400))):
         jobs.append({'seed': '%s/%d/doc/%d' % (ID, ctx.seed, k), 'n': n, 'gen': _gen_doc, 'oracle': _oracle,
                      'nontrivial': _nontrivial, 'finds': _finds, 'model': model, 'tols': (0,),
                      'depth': ctx.pick(5, 10)})
